@@ -18,13 +18,13 @@ package main
 
 import (
 	"fmt"
-	"os"
 	"go/ast"
 	"go/constant"
 	"go/token"
 	"go/types"
 	"math"
 	"math/big"
+	"os"
 	"strings"
 )
 
